@@ -1160,12 +1160,37 @@ pub fn generate(sink: &mut Sink, seed: u64, thorough: bool) {
         made += 1;
         add_case(sink, &mut rng, &run.file, "written_file", thorough);
         // the same file with a damaged data page, every operation possibly retried (C17, C07)
-        if made % 3 == 0 {
+        for _ in 0..2 {
             if let Some(f) = damage_data_page(&mut rng, &run.file) {
                 let ops = ops_with_retries(&mut rng, &f);
                 add_case_ops(sink, &f, &ops, "damaged_file_with_retries");
             }
         }
+    }
+    // 1a. page walks over damaged files (C17, C07): a file of many blobs of about one page each, one page
+    //     damaged; blob reads in random order with repeats — after a read that fails on the damaged
+    //     page every later read must behave as on a fresh reader, whatever page it needs next
+    for _ in 0..(if thorough { 300 } else { 40 }) {
+        let nb = 5 + rng.below(6) as usize;
+        let mut stmts: Vec<Stmt> = (0..nb).map(|k| Stmt::Blob(Data::Gen(900 + rng.below(300) as usize, 17 * k + 3))).collect();
+        stmts.push(Stmt::Fin);
+        let prog = Program { guid: "walk".into(), stmts };
+        let dev = crate::dev::SimDev::new(vec![]);
+        let run = execute(&prog, &dev);
+        if run.panicked || run.results.last().map(|s| s != "ok").unwrap_or(true) {
+            continue;
+        }
+        let descr: Vec<(String, String)> = run.results.iter().filter_map(|r| {
+            let p: Vec<&str> = r.split(':').collect();
+            if p.len() == 3 && p[0] == "ok" { Some((p[1].to_string(), p[2].to_string())) } else { None }
+        }).collect();
+        let Some(f) = damage_data_page(&mut rng, &run.file) else { continue };
+        let mut ops: Vec<String> = vec!["META".into()];
+        for _ in 0..(8 + rng.below(10)) {
+            let (o, l) = rng.pick(&descr).clone();
+            ops.extend(["BLOB".to_string(), o, l]);
+        }
+        add_case_ops(sink, &f, &ops, "damaged_blob_walk");
     }
     // 1b. normalisation stress: attribute ranges and values at the extremes (C13)
     for _ in 0..(if thorough { 400 } else { 60 }) {
